@@ -20,7 +20,7 @@ def gen_case(rng):
     ngram = rng.choice([2, 2, 3, 3, 4])
     max_len = rng.randint(max(ngram, 5), 8 if len(alphabet) <= 3 else 7)
     if rng.random() < 0.12:
-        alphabet, max_len = rng.choice(['a', 'я']), 21          # the default maximum length, enumerable because the alphabet has one symbol
+        alphabet, max_len = (rng.choice(['a', 'я']) if enc in ('utf-8', 'cp1251') else 'a'), 21          # the default maximum length, enumerable because the alphabet has one symbol
     shape = rng.choice(['mixed', 'mixed', 'single_length', 'len_eq_ngram', 'skewed'])
     items = []
     for _ in range(rng.randint(3, 14)):
